@@ -725,6 +725,9 @@ class Evaluator:
             ftext = self.subst_text(c.func, st) if isinstance(c.func, ast.Name) else u(c.func)
             if isinstance(c.func, ast.Name):
                 ftext = c.func.id if not isinstance(st.env.get(c.func.id), Sym) else st.env[c.func.id].text
+        if ftext.split(".")[-1] == "tqdm" and c.args:
+            # tqdm(iterable, ...) iterates the iterable itself (progress display only)
+            return self.ev(c.args[0], st)
         args = [self.ev(a, st) for a in c.args]
         kwargs = {k.arg: self.ev(k.value, st) for k in c.keywords}
         if isinstance(c.func, ast.Attribute) and c.func.attr == "__contains__" and len(args) == 1 and not kwargs:
